@@ -260,8 +260,10 @@ def install_rational(rec):
 
     def wrap_bin(name, pyop, reflected):
         attr = '__%s%s__' % ('r' if reflected else '', name)
-        orig = cls.__dict__[attr]
-        saved[attr] = orig
+        orig = cls.__dict__.get(attr)
+        saved[attr] = orig                  # None: inherited from Fraction, restore by deleting our wrapper
+        if orig is None:
+            orig = getattr(cls, attr)
 
         def w(self, other):
             res = orig(self, other)
@@ -288,8 +290,10 @@ def install_rational(rec):
 
     def wrap_un(name, pyop):
         attr = '__%s__' % name
-        orig = cls.__dict__[attr]
+        orig = cls.__dict__.get(attr)
         saved[attr] = orig
+        if orig is None:
+            orig = getattr(cls, attr)
 
         def w(self):
             res = orig(self)
@@ -337,7 +341,10 @@ def install_rational(rec):
 
     def remove():
         for name, orig in saved.items():
-            setattr(cls, name, orig)
+            if orig is None:
+                delattr(cls, name)
+            else:
+                setattr(cls, name, orig)
     return remove
 
 
